@@ -443,6 +443,8 @@ def _pick_doc(rng, thorough, extra_docs):
         return extra_docs[rng.randrange(len(extra_docs))]
     if x < 0.33:
         return D.ATOM_PROBES[_ATOM_NAMES[rng.randrange(len(_ATOM_NAMES))]]
+    if x < (0.60 if thorough else 0.48):
+        return D.synth_doc(rng)
     if x < 0.8 or not thorough:
         return D.PROBES[names[rng.randrange(len(names))]]
     # assembled document: a few probes glued, optionally wrapped
